@@ -3,6 +3,7 @@
 #include <signal.h>
 #include <semaphore.h>
 #include <sys/wait.h>
+#include <sys/prctl.h>
 #include <algorithm>
 #include "exec.hpp"
 
@@ -455,7 +456,7 @@ void Exec::live_src_op(const Op &op, Inst *S) {
     case M_SRC_TYPE_SGN: { m_src_sgn_t t = {(unsigned)live_signals[ki]}; r = reg ? m_mod_src_register_sgn(handle(S), &t, (m_src_flags)lf, (void *)token) : m_mod_src_deregister_sgn(handle(S), &t); break; }
     case M_SRC_TYPE_PATH: { if (tmpdir.empty()) return; paths[ki] = tmpdir + "/d" + std::to_string(ki); m_src_path_t t = {paths[ki].c_str(), 0x100 /* IN_CREATE */}; r = reg ? m_mod_src_register_path(handle(S), &t, (m_src_flags)(lf | M_SRC_DUP), (void *)token) : m_mod_src_deregister_path(handle(S), &t); break; }
     case M_SRC_TYPE_PID: {
-        if (reg && !present && kids[ki] <= 0) { pid_t c = fork(); if (c == 0) { for (;;) pause(); } kids[ki] = c; g_live_kids[ki] = c; kid_dead[ki] = false; }
+        if (reg && !present && kids[ki] <= 0) { pid_t c = fork(); if (c == 0) { prctl(PR_SET_PDEATHSIG, SIGKILL); for (int fd = 0; fd < 64; fd++) __real_close(fd); for (;;) pause(); } kids[ki] = c; g_live_kids[ki] = c; kid_dead[ki] = false; }
         if (kids[ki] <= 0) return;
         m_src_pid_t t = {kids[ki], 0}; r = reg ? m_mod_src_register_pid(handle(S), &t, (m_src_flags)lf, (void *)token) : m_mod_src_deregister_pid(handle(S), &t); break; }
     case M_SRC_TYPE_TASK: { m_src_task_t t = {(int)(100 + ki), live_task_fn}; r = reg ? m_mod_src_register_task(handle(S), &t, (m_src_flags)lf, (void *)token) : m_mod_src_deregister_task(handle(S), &t); break; }
@@ -569,6 +570,7 @@ rt::Verdict Exec::run() {
         if (loop_next_op > i + 1) { i = loop_next_op - 1; loop_next_op = 0; } // the driver module executed these inside the blocking loop
     }
     if (ok()) epilogue();
+    live_teardown(); // also after a failure: no helper process may outlive the case
     // classification
     nt["C01"] = nt_c01_accept && nt_c01_reject && P.nmods >= 2;
     nt["C02"] = nt_c02_shape && nt_c02_delivery;
